@@ -235,6 +235,10 @@ type FuncCtx struct {
 	frameGhost    map[string]bool
 	frameWhole    map[string]bool
 	curReach      string
+	atSites       map[string]int
+	atMatched     map[int]int
+	siteResults   map[string]TV
+	callSites     map[string]int
 }
 
 type retSite struct {
@@ -632,7 +636,7 @@ func (e *Engine) verifyFunction(fn *ssa.Function, con *Contract) (q *Query, fc *
 		reach: map[*ssa.BasicBlock]string{}, stOut: map[*ssa.BasicBlock]*State{}, edge: map[[2]int]string{},
 		closures: map[ssa.Value]*ssa.MakeClosure{}, ordinals: map[string]int{}, paramTV: map[string]TV{},
 		itercnt: map[*ssa.BasicBlock]string{}, fnName: fn.String(), varHead: map[*ssa.BasicBlock]string{},
-		usedTrusted: map[string]bool{}, usedContracts: map[string]bool{}, inlined: map[string]bool{}}
+		usedTrusted: map[string]bool{}, usedContracts: map[string]bool{}, inlined: map[string]bool{}, atSites: map[string]int{}, atMatched: map[int]int{}, siteResults: map[string]TV{}, callSites: map[string]int{}}
 	fc.stack = []*ssa.Function{fn}
 	if con != nil {
 		fc.checked = con.Checked
@@ -830,7 +834,38 @@ func (fc *FuncCtx) loopNames(li *loopInfo, phiVal func(*ssa.Phi) TV) map[string]
 	return vars
 }
 
+// namesAt: the source variables visible just before instruction `at`.
+func (fc *FuncCtx) namesAt(at ssa.Instruction) map[string]TV {
+	vars := map[string]TV{}
+	if at == nil || at.Block() == nil {
+		return vars
+	}
+	b := at.Block()
+	var chain []*ssa.BasicBlock
+	for d := b.Idom(); d != nil; d = d.Idom() {
+		chain = append(chain, d)
+	}
+	for i := len(chain) - 1; i >= 0; i-- {
+		for _, in := range chain[i].Instrs {
+			fc.debugName(in, vars)
+		}
+	}
+	for _, in := range b.Instrs {
+		if in == at {
+			break
+		}
+		fc.debugName(in, vars)
+	}
+	return vars
+}
+
 func (fc *FuncCtx) debugName(in ssa.Instruction, vars map[string]TV) {
+	if phi, ok := in.(*ssa.Phi); ok {
+		if tv, ok := fc.val[phi]; ok && phi.Comment != "" {
+			vars[phi.Comment] = tv
+		}
+		return
+	}
 	switch d := in.(type) {
 	case *ssa.DebugRef:
 		id, ok := d.Expr.(interface{ String() string })
@@ -905,6 +940,12 @@ func (fc *FuncCtx) enterLoop(li *loopInfo, b *ssa.BasicBlock, pre *State, reach 
 		return ""
 	}
 	frameInv := fc.frameInvariants(li)
+	// implicit invariant of range-over-slice loops: the hidden index is >= -1
+	for _, in := range b.Instrs {
+		if phi, ok := in.(*ssa.Phi); ok && phi.Comment == "rangeindex" {
+			fc.oblige(label+"/inv-entry", "rangeindex", reach, "(<= (- 1) "+entryPhi(phi).T+")", "range index starts at -1", nil)
+		}
+	}
 	{
 		env := fc.envFor(pre, fc.loopNames(li, entryPhi))
 		env.iter = iterOf(entryPhi)
@@ -916,7 +957,9 @@ func (fc *FuncCtx) enterLoop(li *loopInfo, b *ssa.BasicBlock, pre *State, reach 
 			fc.oblige(label+"/inv-entry", clauseLabel(c, i), reach, t, "invariant holds on loop entry: "+c.Src, c.Tags)
 		}
 		for i, f := range frameInv {
-			fc.oblige(label+"/frame-entry", fmt.Sprint(i), reach, f(pre), "frame invariant on entry", nil)
+			if g := f(pre); g != "true" {
+				fc.oblige(label+"/frame-entry", fmt.Sprint(i), reach, g, "frame invariant on entry", nil)
+			}
 		}
 	}
 	// 2. havoc: phis fresh, modified heaps fresh
@@ -949,6 +992,11 @@ func (fc *FuncCtx) enterLoop(li *loopInfo, b *ssa.BasicBlock, pre *State, reach 
 		q.assume(fc.wf(tv.T, phi.Type()))
 	}
 	headPhi := func(phi *ssa.Phi) TV { return fc.val[phi] }
+	for _, in := range b.Instrs {
+		if phi, ok := in.(*ssa.Phi); ok && phi.Comment == "rangeindex" {
+			q.assume("(<= (- 1) " + fc.val[phi].T + ")")
+		}
+	}
 	env := fc.envFor(st, fc.loopNames(li, headPhi))
 	env.iter = iterOf(headPhi)
 	for i, c := range lc.Invariants {
@@ -1015,6 +1063,11 @@ func (fc *FuncCtx) backEdge(li *loopInfo, p *ssa.BasicBlock, ec string, st *Stat
 			}
 		}
 	}
+	for _, in := range b.Instrs {
+		if phi, ok := in.(*ssa.Phi); ok && phi.Comment == "rangeindex" {
+			fc.oblige(label+"/inv-step", "rangeindex"+suffix, ec, "(<= (- 1) "+backPhi(phi).T+")", "range index stays >= -1", nil)
+		}
+	}
 	for i, c := range lc.Invariants {
 		var t string
 		if err := catchTr(fmt.Sprintf("%s %s invariant %d", fc.fnName, label, i), func() { t = env.trBool(c.E) }); err != nil {
@@ -1023,7 +1076,9 @@ func (fc *FuncCtx) backEdge(li *loopInfo, p *ssa.BasicBlock, ec string, st *Stat
 		fc.oblige(label+"/inv-step", clauseLabel(c, i)+suffix, ec, t, "invariant preserved by the loop body: "+c.Src, c.Tags)
 	}
 	for i, f := range fc.frameInvariants(li) {
-		fc.oblige(label+"/frame-step", fmt.Sprint(i)+suffix, ec, f(st), "frame invariant preserved", nil)
+		if g := f(st); g != "true" {
+			fc.oblige(label+"/frame-step", fmt.Sprint(i)+suffix, ec, g, "frame invariant preserved", nil)
+		}
 	}
 	switch {
 	case lc.Decreases != nil:
@@ -1133,6 +1188,12 @@ func (fc *FuncCtx) finish() {
 	}
 	if con.HasAssigns {
 		fc.checkFrame(st, exit)
+	}
+	for i, r := range con.Ats {
+		if fc.atMatched[i] == 0 {
+			o := fc.oblige("at-unmatched", clauseLabel(r.C, i), "true", "false", fmt.Sprintf("`at %s %s` matches no call site (the guarded call vanished or was renamed): %s", r.Kind, r.Target, r.C.Src), r.C.Tags)
+			o.Pos = fc.posOfFn()
+		}
 	}
 	// cover: some return is reachable under the contract (vacuity guard)
 	o := &Obligation{Fn: fc.fnName, Name: "cover/exit", Kind: "cover", Guard: exit, Goal: "false", Desc: "function exit reachable", Cover: true, n: len(q.items), Pos: fc.posOfFn()}
